@@ -59,7 +59,7 @@ func cmdRun(args []string) {
 	}
 	t0 := time.Now()
 	kf := loadKnownFindings()
-	qto := 10000
+	qto := 20000
 	if *tier == "thorough" {
 		qto = 60000
 	}
